@@ -233,7 +233,7 @@ def calls_on(npath, obj):
 
 def short(key):
     """last path segment of a callee key without generic arguments"""
-    k = key
+    k = key.replace("->", "\u2192")
     while k.endswith(">"):
         depth = 0
         i = len(k) - 1
